@@ -125,7 +125,7 @@ fn check(e: &Expression, case: &str, rep: &mut Report, nontrivial_key: Option<St
             if let Some(k) = nontrivial_key {
                 rep.nontrivial(&k);
             }
-            if rep.samples.len() < 5 && framed && av.len() >= 3 {
+            if rep.samples.is_empty() || (rep.samples.len() < 5 && framed && av.len() >= 3) {
                 rep.sample(J::obj(vec![
                     ("expression", J::s(render_default(e).unwrap_or_default())),
                     ("io_map", J::s(crate::sut::io_map_sorted(&compiled.io_map))),
@@ -177,7 +177,7 @@ pub fn run(ctx: &Ctx, rep: &mut Report) {
     });
     rep.extra.push(("multisets_enumerated".into(), J::s(format!("all {} multisets of 1..{} actions from a pool of {} (every output action x files a,b,c x 4 formats)", n_ms, k_max, POOL))));
     // larger random multisets (up to 6) in random trees
-    let n = ctx.pick(5000, 300_000);
+    let n = ctx.pick(5000, 3_000_000);
     par_cases(ctx, "random", n, rep, |i, rep| {
         let mut r = Rng::for_case(ctx.seed, "random", i);
         let k = 1 + r.usize(6);
